@@ -142,7 +142,8 @@ Qed.
 
 (* the code has the shape the machine assumes (regenerated from ffi/object.rs and utils/macros.rs) *)
 Lemma store_pins : gen_store_counter_fetch_add_seqcst = true /\ gen_store_create_next_then_locked_insert = true
-  /\ gen_store_load_locked_get_cloned = true /\ gen_store_remove_locked_remove = true /\ gen_store_single_lock = true.
+  /\ gen_store_load_locked_get_cloned = true /\ gen_store_remove_locked_remove = true /\ gen_store_single_lock = true
+  /\ gen_store_list_load_entrywise = true.
 Proof. repeat split; reflexivity. Qed.
 
 (* every thread's results are exactly its operations in the linearisation, in program order *)
